@@ -46,6 +46,60 @@ pub fn two_sessions(l: &Logical, rng: &mut Rng) -> std::io::Result<Vec<u8>> {
     write_sync(pm)
 }
 
+/// The same archive through real files: written with `to_writer` into a `std::fs::File` (or a `BufWriter<File>`), the
+/// file must hold exactly the bytes an in-memory cursor received; opened again through `File` / `BufReader<File>`.
+fn file_round_trip(ctx: &mut Ctx, l: &Logical, bytes: &[u8], stored: Option<[i32; 6]>, probes: &[u64], i: u64) {
+    let Some(dir) = std::path::Path::new(&ctx.out).parent().map(std::path::Path::to_path_buf) else { return };
+    let path = dir.join(format!("c01_file_{}_{i}.pmtiles", ctx.shard));
+    let mat = l.describe();
+    let buffered = i % 20 == 7;
+    let written = guard(|| -> std::io::Result<()> {
+        let f = std::fs::OpenOptions::new().read(true).write(true).create(true).truncate(true).open(&path)?;
+        if buffered {
+            let mut w = std::io::BufWriter::with_capacity(1000, f);
+            l.build().to_writer(&mut w)?;
+            std::io::Write::flush(&mut w)
+        } else {
+            let mut f = f;
+            l.build().to_writer(&mut f)
+        }
+    });
+    match written {
+        Err(p) => ctx.panic("PMTiles::to_writer", &p, mat.clone()),
+        Ok(Err(e)) => ctx.violation("PMTiles::to_writer", "write-error", "writing a valid archive into a file failed", &e.to_string(), mat.clone()),
+        Ok(Ok(())) => {
+            let on_disk = std::fs::read(&path).unwrap_or_default();
+            if on_disk != bytes {
+                ctx.violation(
+                    "PMTiles::to_writer",
+                    "file-differs",
+                    "a file written with to_writer differs from what an in-memory cursor receives",
+                    &format!("file has {} bytes, cursor received {}", on_disk.len(), bytes.len()),
+                    mat.clone(),
+                );
+            } else {
+                ctx.count("files_identical_to_cursor_output");
+            }
+            let opened = guard(|| -> Result<(), String> {
+                let f = std::fs::File::open(&path).map_err(|e| e.to_string())?;
+                if buffered {
+                    let mut pm = PMTiles::from_reader(std::io::BufReader::with_capacity(700, f)).map_err(|e| format!("open failed: {e}"))?;
+                    compare_open_sync(&mut pm, l, stored, probes)
+                } else {
+                    let mut pm = PMTiles::from_reader(f).map_err(|e| format!("open failed: {e}"))?;
+                    compare_open_sync(&mut pm, l, stored, probes)
+                }
+            });
+            match opened {
+                Err(p) => ctx.panic("PMTiles::from_reader", &p, mat),
+                Ok(Err(e)) => ctx.violation("write→read", "tiles", "tile set or tile content differs after a round trip through a file", &e, mat),
+                Ok(Ok(())) => ctx.count("file_round_trips_equal"),
+            }
+        }
+    }
+    let _ = std::fs::remove_file(&path);
+}
+
 /// Tile lengths for ids 0..n such that the FIRST leaf directory the library writes (4096 entries, one per
 /// id, contents back to back) has exactly `want` bytes with this codec, so that the second leaf starts at
 /// leaf-section offset `want`. With want = 127 a leaf-relative offset equals the root's absolute offset.
@@ -282,6 +336,9 @@ pub fn run(ctx: &mut Ctx) {
                     }
                 }
             }
+        }
+        if i % 10 == 7 && bytes.len() < (2 << 20) {
+            file_round_trip(ctx, &l, &bytes, stored, &probes, i);
         }
         if ctx.want_sample() {
             ctx.sample(l.describe());
